@@ -229,11 +229,12 @@ func (k Keeper) OraclePriceForRewards(ctx sdk.Context, id uint64, amt sdk.Int) (
 
 func (k Keeper) DistributeExtRewardLend(ctx sdk.Context) error {
 	// Give external rewards to borrowers for opening a vault with specific assetID
-	var addrArr []string
-	var amountArr []sdk.Dec
-	totalAmount := sdk.NewInt(0)
 	extRewards := k.GetExternalRewardLends(ctx)
 	for _, v := range extRewards {
+		// the eligible borrowers of THIS programme
+		var addrArr []string
+		var amountArr []sdk.Dec
+		totalAmount := sdk.ZeroDec()
 		klwsParams, _ := k.esm.GetKillSwitchData(ctx, v.AppMappingId)
 		if klwsParams.BreakerEnable {
 			return esmtypes.ErrCircuitBreakerEnabled
@@ -271,21 +272,15 @@ func (k Keeper) DistributeExtRewardLend(ctx sdk.Context) error {
 						}
 						addrArr = append(addrArr, lendPos.Owner)
 						amountArr = append(amountArr, minAmt)
-						totalAmount = totalAmount.Add(minAmt.TruncateInt())
+						totalAmount = totalAmount.Add(minAmt)
 					}
-					rewardAsset, found := k.asset.GetAssetForDenom(ctx, v.TotalRewards.Denom)
-					if !found {
+					if !totalAmount.IsPositive() || !v.AvailableRewards.Amount.IsPositive() {
 						continue
 					}
-					totalRewardAmt, found := k.OraclePriceForRewards(ctx, rewardAsset.Id, v.AvailableRewards.Amount)
-					if !found {
-						continue
-					}
-					if totalAmount.LTE(sdk.ZeroInt()) {
-						continue
-					}
-					dailyRewardAmt := totalRewardAmt.Quo(sdk.NewDec(v.DurationDays - int64(epoch.Count)))
-					totalAPR := dailyRewardAmt.Quo(sdk.NewDecFromInt(totalAmount))
+					// today's allocation in reward coins (not in their oracle value: what is sent below
+					// are coins), shared in proportion to the eligible value
+					dailyRewardAmt := sdk.NewDecFromInt(v.AvailableRewards.Amount).Quo(sdk.NewDec(v.DurationDays - int64(epoch.Count)))
+					totalAPR := dailyRewardAmt.Quo(totalAmount)
 					amountRewardedTracker := sdk.NewInt(0)
 					for i, borrower := range addrArr {
 						user, _ := sdk.AccAddressFromBech32(borrower)
